@@ -337,7 +337,9 @@ def col_sql(c):
     return _re.sub(r'(?<!^)([A-Z])', r'_\1', c).lower()
 
 
-E2E_BAD = ["name from 't[' depth 1 rx", "name from 'R0/(' rx", "name from R0 where name =~ '['", "name from R0 where name like '%['", "name from R0 where is_dir = maybe",
+# queries that must be REJECTED (status 2, no row): a bracket closed by the other kind
+E2E_REJECT = ["lower{name) from R0", "lower(name} from R0", "substr{name, 1, 2) from R0", "name from R0 where (size > 1}", "name from R0 where {size > 1)"]
+E2E_BAD = ["name from 't[' depth 1 rx", "size, count(*) from R0 group by size limit 9", "name from 'R0/(' rx", "name from R0 where name =~ '['", "name from R0 where name like '%['", "name from R0 where is_dir = maybe",
            "name from R0 where size = 'abc'", "name, substr(name, 'x') from R0", "name from R0 order by 7", "name from R0 limit x", "name from R0 into nope",
            "name from R0 where name = 'a' and", "name from R0 where (size > 1", "min(name), name from R0 group by", "name from R0 where size between 1"]
 
@@ -348,8 +350,8 @@ def fam_e2e_bad(sess):
     from drivers import e2e
     prog = sess.prog
     fam = 'e2e_bad'
-    qs = E2E_BAD if sess.tier != 'quick' else E2E_BAD[:8]
-    sess.bounds[fam] = {'queries': qs, 'nodes': 3}
+    qs = (E2E_BAD if sess.tier != 'quick' else E2E_BAD[:9]) + (E2E_REJECT if sess.tier != 'quick' else E2E_REJECT[:3])
+    sess.bounds[fam] = {'queries': qs, 'nodes': 3, 'must be rejected with status 2': E2E_REJECT}
     for text in qs:
         ex = sess.executor(e2e.overrides(), unwind=403, maxsteps=4000000)
         box = {'paths': 0}
@@ -360,6 +362,12 @@ def fam_e2e_bad(sess):
         def on_path(ctx, out, text=text):
             box['paths'] += 1
             nm = '%s `%s`' % (fam, text)
+            if text in E2E_REJECT and (out[0] == 'ret' or (out[0] == 'exit' and out[1] != 2)):
+                st_ = out[1][1] if out[0] == 'ret' else None
+                if (st_ is None or ctx.check(st_ != 2) != z3.unsat or ctx.ghost.get('stdout')) and not box.get('viol'):
+                    box['viol'] = True
+                    sess.violated(nm, 'e2e_bad/accepted', 'a malformed query is not rejected with status 2 (printed %r)' % (ctx.ghost.get('stdout'),), {'query': text}, cli_replay_reject(text), fam)
+                return
             if out[0] == 'ret':
                 fs, status = out[1]
                 if ctx.check(And(status != 0, status != 1, status != 2)) != z3.unsat and not box.get('viol'):
@@ -384,6 +392,14 @@ def fam_e2e_bad(sess):
             sess.inconclusive('%s `%s`' % (fam, text), 'time budget exceeded after %d paths' % n, fam)
         elif not box.get('viol') and not box.get('bad'):
             sess.discharged('%s `%s`: status 0..2 on every path' % (fam, text), family=fam, queries=box['paths'])
+
+
+def cli_replay_reject(text):
+    def rep():
+        exe = common.native_binary()
+        r = common.run_cli(exe, [text], {'R0': {'kind': 'dir'}, 'R0/a.txt': {'size': 3}, 'R0/d': {'kind': 'dir'}}, timeout=5)
+        return r['status'] != 2 or r['stdout'] != '', 'fselect "%s" -> status %s, stdout %r (a malformed query ends with status 2 and no row)' % (text, r['status'], r['stdout'][:80])
+    return rep
 
 
 def cli_replay_text(text):
